@@ -237,7 +237,7 @@ def _burst(npk, seed, read_size=4096, stall=0.05):
                 await c._receive_impl()
             except Exception:
                 break
-        for _ in range(400):
+        for _ in range(6000):
             if len(got) >= core_n[0] or c._process_queue_task.done():
                 break
             await asyncio.sleep(0.01)
